@@ -394,33 +394,65 @@ def tailRules (o : FOpts) (s : FState) (line : Bytes) (inp : Bytes) : Outcome :=
   else if line == [B.lf] then .cont s inp                                  -- rule 16
   else .cont (s.emit line) inp                                             -- rule 17
 
-def step (o : FOpts) (s : FState) (line : Bytes) (inp : Bytes) (fuel : Nat) : Outcome :=
-  -- rule 2
-  if s.skippingTag then
-    if startsWith line b!"data " then
-      match parseDataHeader line with
-      | none => .fail
-      | some n => match readExact n inp with
-        | none => .fail
-        | some (_, inp) => .cont { s with skippingTag := false } inp
-    else .cont s inp
-  -- rule 3
-  else if startsWith line b!"tag " && o.refs.tagRename.isSome &&
-          s.updatedRefs.contains (refsTags ++ renameTagName o (stripLf (line.drop 4))) then
-    .cont { s with skippingTag := true } inp
-  -- rule 4
-  else if s.inBlob && startsWith line b!"original-oid " then
-    .cont { s with lastBlobSha := some (lowerHexBytes (stripLf (line.drop 13))) } inp
-  -- rule 5
-  else if line == b!"blob\n" then
-    .cont { s with inBlob := true, blobBuf := [line], lastBlobMark := none } inp
-  -- rule 6
-  else if s.inBlob && startsWith line b!"mark :" then
-    let s := match satDigits (line.drop 6) with
-      | some n => { s with lastBlobMark := some n }
-      | none => s
-    .cont { s with blobBuf := line :: s.blobBuf } inp
+/-- rule 11b, inline payload: the `data` block that follows `M <mode> inline <path>` -/
+def inlinePayload (o : FOpts) (s : FState) (line : Bytes) (inp : Bytes) : Outcome :=
+  match s.pendingInline, parseDataHeader line with
+  | some (pos, pathRaw), some n =>
+    match readExact n inp with
+    | none => .fail
+    | some (payload, inp) =>
+      let s := { s with pendingInline := none }
+      let tooBig := match o.maxBlob with | some mx => decide (n > mx) | none => false
+      if tooBig then
+        let segs := (s.segs.reverse.take pos).reverse
+        let enc := encodePathForFi (decodeFastExportPath pathRaw)
+        .cont { s with segs := .raw (b!"D " ++ enc ++ [B.lf]) :: segs, hasChanges := true } inp
+      else
+        let p := rewriteBlob o payload
+        .cont { s.push (dataHeader p.length ++ p) with hasChanges := true } inp
+  | _, _ => .fail
+
+/-- rule 11b, `M` line naming a stripped blob: the state after the deletion that replaces it -/
+def mDropOf (o : FOpts) (s : FState) (line : Bytes) : Option FState :=
+  if startsWith line b!"M " then
+    let f := mFields line
+    let s := if f.id == b!"inline" then { s with pendingInline := some (s.segs.length, stripLf f.pathRaw) } else s
+    let drop :=
+      match f.id with
+      | c :: digits =>
+        if c == B.colon then
+          (match satDigits digits with | some n => s.oversizeMarks.contains n | none => false)
+        else if is40Hex f.id then stripContains o.stripIds f.id || (o.maxBlob.isSome && o.shaOversize f.id)
+        else false
+      | [] => false
+    if drop then
+      match handleFileChangeLine o.path (b!"D " ++ f.pathRaw) with
+      | some l => some { s.push l with hasChanges := true }
+      | none => some s
+    else none
+  else none
+
+/-- rule 11b: a line inside the open commit -/
+def stepInCommit (o : FOpts) (s : FState) (line : Bytes) (inp : Bytes) : Outcome :=
+  if startsWith line b!"data " && s.pendingInline.isSome then inlinePayload o s line inp
   else
+    match mDropOf o s line with
+    | some s => .cont s inp
+    | none =>
+      let s := if startsWith line b!"M " && (mFields line).id == b!"inline"
+               then { s with pendingInline := some (s.segs.length, stripLf (mFields line).pathRaw) } else s
+      if line == [B.lf] then tailRules o (endCommit o s) line inp
+      else commitLine o s (rewriteIdentityLine o line) inp
+
+/-- rules 11a/11b: the line belongs to (or ends) the open commit, else the tail rules -/
+def stepCommit (o : FOpts) (s : FState) (line : Bytes) (inp : Bytes) : Outcome :=
+  -- rule 11a: a new object ends the open commit
+  let s := if s.inCommit && (startsWith line b!"reset " || startsWith line b!"blob" || line == b!"done\n")
+           then endCommit o s else s
+  if s.inCommit then stepInCommit o s line inp else tailRules o s line inp
+
+/-- rules 7–10, then `stepCommit` -/
+def stepMain (o : FOpts) (s : FState) (line : Bytes) (inp : Bytes) (fuel : Nat) : Outcome :=
   -- rule 7: a pending lightweight-tag reset captures the `from` line; a bare reset is forwarded
   let isFrom := startsWith line b!"from "
   match (match s.pendingTagReset with
@@ -452,56 +484,35 @@ def step (o : FOpts) (s : FState) (line : Bytes) (inp : Bytes) (fuel : Nat) : Ou
     let s := if startsWith final refsHeads then { s with updatedBranchRefs := bsetInsert final s.updatedBranchRefs } else s
     .cont { s with inCommit := true, segs := [.raw hdr], hasChanges := false, commitMark := none,
                    firstParentMark := none } inp
-  else
-  -- rule 11a: a new object ends the open commit
-  let s := if s.inCommit && (startsWith line b!"reset " || startsWith line b!"blob" || line == b!"done\n")
-           then endCommit o s else s
-  if s.inCommit then
-    -- rule 11b
-    let inlineData := startsWith line b!"data " && s.pendingInline.isSome
-    if inlineData then
-      match s.pendingInline, parseDataHeader line with
-      | some (pos, pathRaw), some n =>
-        match readExact n inp with
+  else stepCommit o s line inp
+
+def step (o : FOpts) (s : FState) (line : Bytes) (inp : Bytes) (fuel : Nat) : Outcome :=
+  -- rule 2
+  if s.skippingTag then
+    if startsWith line b!"data " then
+      match parseDataHeader line with
+      | none => .fail
+      | some n => match readExact n inp with
         | none => .fail
-        | some (payload, inp) =>
-          let s := { s with pendingInline := none }
-          let tooBig := match o.maxBlob with | some mx => decide (n > mx) | none => false
-          if tooBig then
-            let segs := (s.segs.reverse.take pos).reverse
-            let enc := encodePathForFi (decodeFastExportPath pathRaw)
-            .cont { s with segs := .raw (b!"D " ++ enc ++ [B.lf]) :: segs, hasChanges := true } inp
-          else
-            let p := rewriteBlob o payload
-            .cont { s.push (dataHeader p.length ++ p) with hasChanges := true } inp
-      | _, _ => .fail
-    else
-    let mDrop : Option FState :=
-      if startsWith line b!"M " then
-        let f := mFields line
-        let s := if f.id == b!"inline" then { s with pendingInline := some (s.segs.length, stripLf f.pathRaw) } else s
-        let drop :=
-          match f.id with
-          | c :: digits =>
-            if c == B.colon then
-              (match satDigits digits with | some n => s.oversizeMarks.contains n | none => false)
-            else if is40Hex f.id then stripContains o.stripIds f.id || (o.maxBlob.isSome && o.shaOversize f.id)
-            else false
-          | [] => false
-        if drop then
-          match handleFileChangeLine o.path (b!"D " ++ f.pathRaw) with
-          | some l => some { s.push l with hasChanges := true }
-          | none => some s
-        else if f.id == b!"inline" then none else none
-      else none
-    match mDrop with
-    | some s => .cont s inp
-    | none =>
-      let s := if startsWith line b!"M " && (mFields line).id == b!"inline"
-               then { s with pendingInline := some (s.segs.length, stripLf (mFields line).pathRaw) } else s
-      if line == [B.lf] then tailRules o (endCommit o s) line inp
-      else commitLine o s (rewriteIdentityLine o line) inp
-  else tailRules o s line inp
+        | some (_, inp) => .cont { s with skippingTag := false } inp
+    else .cont s inp
+  -- rule 3
+  else if startsWith line b!"tag " && o.refs.tagRename.isSome &&
+          s.updatedRefs.contains (refsTags ++ renameTagName o (stripLf (line.drop 4))) then
+    .cont { s with skippingTag := true } inp
+  -- rule 4
+  else if s.inBlob && startsWith line b!"original-oid " then
+    .cont { s with lastBlobSha := some (lowerHexBytes (stripLf (line.drop 13))) } inp
+  -- rule 5
+  else if line == b!"blob\n" then
+    .cont { s with inBlob := true, blobBuf := [line], lastBlobMark := none } inp
+  -- rule 6
+  else if s.inBlob && startsWith line b!"mark :" then
+    let s := match satDigits (line.drop 6) with
+      | some n => { s with lastBlobMark := some n }
+      | none => s
+    .cont { s with blobBuf := line :: s.blobBuf } inp
+  else stepMain o s line inp fuel
 
 /-! ### the loop -/
 
